@@ -159,3 +159,48 @@ Definition c20_elim_model (before : graph) (rs : list N) (after : graph) : N :=
   | Some es' => if same_wires_b (map wire_of es') (wires after) then 0 else 1
   | None => 1
   end.
+
+(* ---- DfirGraph::remove_module_boundary / merge_modules on the edge list.
+   The Rust code keys the boundary's in-edges by their destination port and its out-edges by their
+   source port (BTreeMaps), requires equal key sets (else Err diagnostic), joins per port and then
+   `remove_vertex` asserts that no edge is left: two edges on one port (the later overwrites the
+   earlier in the map) or a self loop leave an edge behind -> panic. *)
+Inductive mbres := MbOk (es : list edge) | MbErr | MbPanic.
+
+Fixpoint ports_nodup (l : list port) : bool :=
+  match l with [] => true | p :: r => negb (existsb (port_eqb p) r) && ports_nodup r end.
+Definition ports_subset (a b : list port) : bool := forallb (fun p => existsb (port_eqb p) b) a.
+
+Definition remove_mb (es : list edge) (m k : N) : mbres :=
+  let is := ins es m in
+  let os := outs es m in
+  if existsb (fun i => N.eqb (e_src i) m) is then MbPanic else
+  if negb (ports_nodup (map e_dport is)) || negb (ports_nodup (map e_sport os)) then MbPanic else
+  if negb (ports_subset (map e_dport is) (map e_sport os) && ports_subset (map e_sport os) (map e_dport is))
+  then MbErr else
+  MbOk (others es m ++
+        flat_map (fun i => map (fun o => mkEdge k (e_src i) (e_dst o) (e_sport i) (e_dport o))
+                               (filter (fun o => port_eqb (e_sport o) (e_dport i)) os)) is).
+
+Fixpoint merge_mbs (es : list edge) (ms : list N) (k : N) : mbres :=
+  match ms with
+  | [] => MbOk es
+  | m :: r => match remove_mb es m k with
+              | MbOk es1 => merge_mbs es1 r (k + 1)
+              | x => x
+              end
+  end.
+
+(* end-to-end connections through ONE module boundary m: a wire that does not touch m, or an
+   in-edge of m joined with the out-edge of m that leaves on the port the in-edge arrived on *)
+Definition conn_mb (es : list edge) (m : N) (w : wire) : Prop :=
+  (exists e, In e es /\ e_src e <> m /\ e_dst e <> m /\ wire_of e = w) \/
+  (exists i o, In i es /\ In o es /\ e_dst i = m /\ e_src o = m /\ port_eqb (e_sport o) (e_dport i) = true /\
+               w = (e_src i, e_sport i, e_dst o, e_dport o)).
+
+(* model vs implementation for merge_modules (bit 0): ms = the module boundary nodes in node order *)
+Definition c20_mb_model (before : graph) (ms : list N) (after : graph) : N :=
+  match merge_mbs (g_edges before) ms 0 with
+  | MbOk es' => if same_wires_b (map wire_of es') (wires after) then 0 else 1
+  | _ => 1
+  end.
